@@ -136,6 +136,75 @@ theorem drawId_inj (names : List String) (a b : String) (ha : a ∈ names) (hb :
   simp only [h] at h1
   exact h1.symm.trans h2
 
+/-! ### the global numbering of the literals -/
+
+/-- an index of the global numbering denotes one name only -/
+theorem idxOf_inj_of_mem (l : List String) (a b : String) (hb : b ∈ l)
+    (h : l.idxOf a = l.idxOf b) : a = b := by
+  have hlt : l.idxOf b < l.length := List.idxOf_lt_length_iff.mpr hb
+  have ha : a ∈ l := List.idxOf_lt_length_iff.mp (h ▸ hlt)
+  have h1 : l[l.idxOf a]'(List.idxOf_lt_length_iff.mpr ha) = a := List.getElem_idxOf _
+  have h2 : l[l.idxOf b]'hlt = b := List.getElem_idxOf _
+  simp only [h] at h1
+  exact h1.symm.trans h2
+
+/-- differentiating w.r.t. the id of data column `j` is differentiating w.r.t. that column, provided
+no parameter and no draw variable of the formula carries that id and the columns have distinct ids -/
+theorem diffLit_eq_diffVar (bid vid : Nat → Nat) (did : String → Nat) (j : Nat) (e : IExpr)
+    (hb : ∀ k, bid k ≠ vid j) (hv : ∀ k, vid k = vid j → k = j)
+    (hd : ∀ n ∈ drawsOf e, did n ≠ vid j) :
+    diffLit (vid j) bid vid did e = diffVar j e := by
+  induction e with
+  | num m neg k => rfl
+  | nat k => rfl
+  | beta k => simp [diffLit, diffVar, hb k]
+  | var k =>
+    by_cases hk : k = j
+    · subst hk; simp [diffLit, diffVar]
+    · have : vid k ≠ vid j := fun h => hk (hv k h)
+      simp [diffLit, diffVar, hk, this]
+  | draw n => simp [diffLit, diffVar, hd n (by simp [drawsOf])]
+  | add a b iha ihb =>
+    simp only [diffLit, diffVar]
+    rw [iha (fun n hn => hd n (by simp [drawsOf, hn])), ihb (fun n hn => hd n (by simp [drawsOf, hn]))]
+  | sub a b iha ihb =>
+    simp only [diffLit, diffVar]
+    rw [iha (fun n hn => hd n (by simp [drawsOf, hn])), ihb (fun n hn => hd n (by simp [drawsOf, hn]))]
+  | mul a b iha ihb =>
+    simp only [diffLit, diffVar]
+    rw [iha (fun n hn => hd n (by simp [drawsOf, hn])), ihb (fun n hn => hd n (by simp [drawsOf, hn]))]
+  | exp a iha =>
+    simp only [diffLit, diffVar]
+    rw [iha (fun n hn => hd n (by simpa [drawsOf] using hn))]
+
+/-- the same for the id of parameter `i` -/
+theorem diffLit_eq_diffBeta (bid vid : Nat → Nat) (did : String → Nat) (i : Nat) (e : IExpr)
+    (hv : ∀ k, vid k ≠ bid i) (hb : ∀ k, bid k = bid i → k = i)
+    (hd : ∀ n ∈ drawsOf e, did n ≠ bid i) :
+    diffLit (bid i) bid vid did e = diffBeta i e := by
+  induction e with
+  | num m neg k => rfl
+  | nat k => rfl
+  | var k => simp [diffLit, diffBeta, hv k]
+  | beta k =>
+    by_cases hk : k = i
+    · subst hk; simp [diffLit, diffBeta]
+    · have : bid k ≠ bid i := fun h => hk (hb k h)
+      simp [diffLit, diffBeta, hk, this]
+  | draw n => simp [diffLit, diffBeta, hd n (by simp [drawsOf])]
+  | add a b iha ihb =>
+    simp only [diffLit, diffBeta]
+    rw [iha (fun n hn => hd n (by simp [drawsOf, hn])), ihb (fun n hn => hd n (by simp [drawsOf, hn]))]
+  | sub a b iha ihb =>
+    simp only [diffLit, diffBeta]
+    rw [iha (fun n hn => hd n (by simp [drawsOf, hn])), ihb (fun n hn => hd n (by simp [drawsOf, hn]))]
+  | mul a b iha ihb =>
+    simp only [diffLit, diffBeta]
+    rw [iha (fun n hn => hd n (by simp [drawsOf, hn])), ihb (fun n hn => hd n (by simp [drawsOf, hn]))]
+  | exp a iha =>
+    simp only [diffLit, diffBeta]
+    rw [iha (fun n hn => hd n (by simpa [drawsOf] using hn))]
+
 /-! ### dispatch -/
 
 theorem dispatch_native (native user : List String) (ty : String) (h : ty ∈ native) :
